@@ -199,12 +199,12 @@ theorem mu_init_le (toks : List Nat) : mu (initPS toks) ≤ (toks.length + 1) * 
   simp only [FUEL, Gen.parserFuel]
   split <;> omega
 
-/-- **`grammar_terminates`: the call budget of the grammar model never runs out**, for every token list. Each call or
+/-- **the call budget of the grammar model never runs out**, for every token list. Each call or
 loop iteration made before the potential `(len − pos)·257 + fuel` dropped goes to a function of lower rank (ranks ≤ 6);
 every other one follows a look that spent parser fuel or an `advance` inside the input; at fuel 0 every look answers
 `eof` and the default path of each loop reaches an `advance` or leaves the loop. Hence the depth of calls and loop
 iterations is at most `ranks · ((len+1)·257) + ranks` < `budget len` = `40·257·(len+1) + 41`. -/
-theorem grammar_terminates (toks : List Nat) : (parseItems toks).oof = false := by
+theorem parseItems_no_oof (toks : List Nat) : (parseItems toks).oof = false := by
   unfold parseItems
   refine (run_terminates theCfg theCfg_checked _ .file (initPS toks) file_in_universe rfl ?_).1
   have h1 := mu_init_le toks
